@@ -512,7 +512,12 @@ def check_doc(env, i, acc=None):
     elif qtoks is not None:
         cnt("r2_no_query_tokens")
         if itoks:
+            # the text put terms into the index but yields nothing to search
+            # for under query-time analysis: the document cannot be found by
+            # its own words at all
             cnt("r2_index_tokens_but_no_query_tokens")
+            P.append((2, "no-query-tokens", "and",
+                      "text %r: %d index-time tokens but no query-time tokens" % (text, len(itoks))))
 
     r2 = [p for p in P if p[0] == 2]
     if len(r2) > 1:
